@@ -298,7 +298,7 @@ theorem safe_ringKill (t : Text) {s : Ed} (h : EdWF cfg s) : Safe cfg (ringKill 
   obtain ⟨k', hy, hk'⟩ := hr.kill_ok t .append
   unfold Safe wp ringKill
   rw [hy]
-  exact EdWF.mk' h.line h.saved h.idx hk'
+  exact EdWF.mk' h.line h.saved h.idx hk'.reset
 
 end
 end Rl
